@@ -124,12 +124,24 @@ def handleSobs (c : Line) (l : Line) : IO Unit := do
       let ts := terms.map fun (t, rm) => (t, rm.getD i false)
       if Spec.Expr.denote conn ts probe then '1' else '0'
     IO.println s!"spec {l.id} den=ok:{String.ofList bits}"
+  else if kind == "sep" then
+    -- two bare words separated by white space (ASCII or Unicode): two terms / fields / list members
+    let w1 := (c.bytes? "w1").getD []
+    let w2 := (c.bytes? "w2").getD []
+    let hasSpace := (c.getD "usp" "-") != "-" || w1.any Spec.Expr.asciiSpace || w2.any Spec.Expr.asciiSpace
+    let safe := Spec.Expr.bareSafeProj hasSpace w1 && Spec.Expr.bareSafeProj hasSpace w2 &&
+      Spec.Expr.bareSafe hasSpace w1 && Spec.Expr.bareSafe hasSpace w2 &&
+      Spec.Expr.usableKey w1 && Spec.Expr.usableKey w2 && w1 != w2
+    if safe then
+      IO.println s!"spec {l.id} f=ok:10 p=ok:{w1.toHex},{w2.toHex} fx=ok:110"
+    else
+      IO.println s!"spec {l.id} f={l.getD "f"} p={l.getD "p"} fx={l.getD "fx"}"
   else if kind == "fixed" then
     -- key@(v1 v2 …) with bare words: must parse, keep exactly the listed values, project the value
     let key := (c.bytes? "key").getD []
     let vals := (c.hexList? "vals").getD []
     let other := (c.bytes? "other").getD []
-    let hasSpace := (c.getD "sp" "-") != "-" || key.any Spec.Expr.asciiSpace || vals.any (·.any Spec.Expr.asciiSpace)
+    let hasSpace := (c.getD "usp" "-") != "-" || key.any Spec.Expr.asciiSpace || vals.any (·.any Spec.Expr.asciiSpace)
     let safe := Spec.Expr.bareSafeProj hasSpace key && Spec.Expr.usableKey key && !vals.isEmpty &&
       vals.all (Spec.Expr.bareSafeProj hasSpace) && !vals.contains other
     if safe then
@@ -139,7 +151,7 @@ def handleSobs (c : Line) (l : Line) : IO Unit := do
       IO.println s!"spec {l.id} fx={l.getD "fx"}"
   else if kind == "bare" then
     let w := (c.bytes? "w").getD []
-    let hasSpace := w.any Spec.Expr.asciiSpace || (c.getD "sp" "-") != "-"
+    let hasSpace := w.any Spec.Expr.asciiSpace || (c.getD "usp" "-") != "-"
     if Spec.Expr.bareSafe hasSpace w then
       let (key, pk) := if Spec.Expr.usableKey w then ("ok:10", s!"ok:{w.toHex}:76") else ("skip", "skip")
       IO.println s!"spec {l.id} val=ok:10 key={key} pk={pk}"
